@@ -34,6 +34,9 @@ def main():
         if prop in ("C03", "C04"):
             import check_prog
             return check_prog.check_fifo(prop, tier, seed, replay)
+        if prop in ("C08", "C09", "C10", "C12"):
+            import check_life
+            return check_life.check(prop, tier, seed, replay)
         print("no check for", prop)
         return 2
     except vlib.Infra as e:
